@@ -19,8 +19,9 @@
     characters on which it is exact.
   * `unicodedata.normalize("NFC", name)` is external: the model returns the un-normalised name and
     the harness applies NFC to it before comparing.
-  * results that the real code delivers as an uncaught `ValueError` (not a documented outcome)
-    are `.err .ValueError` here; the property theorems say exactly when that happens.
+  * helpers that can raise `ValueError` in Python (`int` beyond the digit limit, `calendar.timegm`,
+    `datetime(...)`) return `Res`; the callers' `try … except ValueError` are transcribed, and the
+    property theorems show that no error reaches `parse_line`, `parse`, `_parse_mlsx`.
 -/
 import FsModel.Basic
 import FsModel.Path
@@ -321,21 +322,21 @@ def substYear (currentYear : Nat) : Option Nat → Nat
 /-- the tail of `_parse_time`: substitute the current year for 1900 / a missing year, build the
     `datetime` (which raises `ValueError` for Feb 29 of a non-leap current year) and subtract the
     epoch. -/
-def finishTime (fx : Bool) (currentYear : Nat) (t : Option Tm) : Res (Option Int) :=
+def finishTime (currentYear : Nat) (t : Option Tm) : Res (Option Int) :=
   match t with
   | none => .ok none
   | some tm =>
     let y := substYear currentYear tm.year
     if validDate y tm.month tm.day then .ok (some (epochOf y tm.month tm.day tm.hour tm.minute 0))
-    else if fx then .ok none else .err .ValueError
+    else .ok none      -- `except ValueError: return None` around `datetime(...)`
 
 /-- `_decode_linux_time(mtime)` -/
-def decodeLinuxTime (fx : Bool) (currentYear : Nat) (t : Str) : Res (Option Int) :=
-  finishTime fx currentYear (match strpBdY t with | some tm => some tm | none => strpBdHM t)
+def decodeLinuxTime (currentYear : Nat) (t : Str) : Res (Option Int) :=
+  finishTime currentYear (match strpBdY t with | some tm => some tm | none => strpBdHM t)
 
 /-- `_decode_windowsnt_time(mtime)` -/
-def decodeNtTime (fx : Bool) (currentYear : Nat) (t : Str) : Res (Option Int) :=
-  finishTime fx currentYear (match strpNt12 t with | some tm => some tm | none => strpNt24 t)
+def decodeNtTime (currentYear : Nat) (t : Str) : Res (Option Int) :=
+  finishTime currentYear (match strpNt12 t with | some tm => some tm | none => strpNt24 t)
 
 /-! ### `Permissions.parse(perms).dump()` -/
 
@@ -496,11 +497,11 @@ def partitionArrow : Str → Str × Bool × Str
     (c :: r.1, r.2.1, r.2.2)
 
 /-- `decode_linux(line, match)` -/
-def decodeLinux (fx : Bool) (currentYear : Nat) (line : Str) (g : LinuxGroups) : Res ListInfo :=
+def decodeLinux (currentYear : Nat) (line : Str) (g : LinuxGroups) : Res ListInfo :=
   let isLink := g.ty == 'l'
   let isDir := g.ty == 'd' || isLink
   let name := if isLink then strip (partitionArrow g.name).1 else g.name
-  match decodeLinuxTime fx currentYear g.mtime with
+  match decodeLinuxTime currentYear g.mtime with
   | .err e => .err e
   | .ok mt =>
     match intOfDigits g.size with
@@ -548,40 +549,40 @@ def ntSize : Option Str → Res (Option Nat)
     | .err e => .err e
 
 /-- `decode_windowsnt(line, match)` -/
-def decodeNt (fx : Bool) (currentYear : Nat) (line : Str) (g : NtGroups) : Res ListInfo :=
+def decodeNt (currentYear : Nat) (line : Str) (g : NtGroups) : Res ListInfo :=
   match ntSize g.size with
   | .err e => .err e
   | .ok size =>
-    match decodeNtTime fx currentYear (g.date ++ ' ' :: g.time) with
+    match decodeNtTime currentYear (g.date ++ ' ' :: g.time) with
     | .err e => .err e
     | .ok mt => .ok ⟨g.name, g.size.isNone, size, mt, none, none, none, line⟩
 
-/-- with the repair, a `ValueError` of a decoder makes `parse_line` skip the line -/
-def skipErr (fx : Bool) (r : Res ListInfo) : Res (Option ListInfo) :=
+/-- `try: return decode_callable(line, match)  except ValueError: return None` -/
+def skipErr (r : Res ListInfo) : Res (Option ListInfo) :=
   match r with
   | .ok i => .ok (some i)
-  | .err e => if fx then .ok none else .err e
+  | .err e => if e = .ValueError then .ok none else .err e
 
-/-- `parse_line(line)`: first decoder whose regex matches.  `fx = false` is the pinned tree;
-    `fx = true` is the tree with the proposed repairs (findings/C20-*.patch). -/
-def parseLine (fx : Bool) (currentYear : Nat) (line : Str) : Res (Option ListInfo) :=
+/-- `parse_line(line)`: first decoder whose regex matches; a line whose fields the decoder cannot
+    convert is skipped -/
+def parseLine (currentYear : Nat) (line : Str) : Res (Option ListInfo) :=
   match reLinux line with
-  | some g => skipErr fx (decodeLinux fx currentYear line g)
+  | some g => skipErr (decodeLinux currentYear line g)
   | none =>
     match reNt line with
-    | some g => skipErr fx (decodeNt fx currentYear line g)
+    | some g => skipErr (decodeNt currentYear line g)
     | none => .ok none
 
 /-- `parse(lines)` -/
-def parse (fx : Bool) (currentYear : Nat) : List Str → Res (List ListInfo)
+def parse (currentYear : Nat) : List Str → Res (List ListInfo)
   | [] => .ok []
   | line :: rest =>
-    if strip line = [] then parse fx currentYear rest
+    if strip line = [] then parse currentYear rest
     else
-      match parseLine fx currentYear line with
+      match parseLine currentYear line with
       | .err e => .err e
       | .ok r =>
-        match parse fx currentYear rest with
+        match parse currentYear rest with
         | .err e => .err e
         | .ok infos => .ok (match r with | some i => i :: infos | none => infos)
 
@@ -614,13 +615,13 @@ def timegm (y m d h mi s : Int) : Res Int :=
   else .err .ValueError
 
 /-- `FTPFS._parse_ftp_time(time_text)` -/
-def parseFtpTime (fx : Bool) (t : Str) : Res (Option Int) :=
+def parseFtpTime (t : Str) : Res (Option Int) :=
   match pyInt (t.take 4), pyInt ((t.drop 4).take 2), pyInt ((t.drop 6).take 2),
         pyInt ((t.drop 8).take 2), pyInt ((t.drop 10).take 2), pyInt ((t.drop 12).take 2) with
   | some y, some m, some d, some h, some mi, some s =>
     match timegm y m d h mi s with
     | .ok v => .ok (some v)
-    | .err e => if fx then .ok none else .err e
+    | .err e => if e = .ValueError then .ok none else .err e    -- `timegm` is inside the `try`
   | _, _, _, _, _, _ => .ok none
 
 structure MlsdInfo where
@@ -641,25 +642,25 @@ def kModify : Str := ['m','o','d','i','f','y']
 def kCreate : Str := ['c','r','e','a','t','e']
 
 /-- the `size` computation of `_parse_mlsx`: `isdigit()` then `int()` -/
-def mlsdSize (fx : Bool) (facts : List (Str × Str)) : Res Nat :=
+def mlsdSize (facts : List (Str × Str)) : Res Nat :=
   let sizeStr := (dictGet kSize facts).getD ((dictGet kSizd facts).getD ['0'])
   if sizeStr ≠ [] ∧ sizeStr.all isDigitProp then
     match pyInt sizeStr with
     | some n => .ok n.toNat
-    | none => if fx then .ok 0 else .err .ValueError
+    | none => .ok 0      -- `except ValueError: size = 0`
   else .ok 0
 
 /-- `details[...] = cls._parse_ftp_time(facts[k])` when the fact is present -/
-def mlsdTime (fx : Bool) (facts : List (Str × Str)) (k : Str) : Res (Option (Option Int)) :=
+def mlsdTime (facts : List (Str × Str)) (k : Str) : Res (Option (Option Int)) :=
   match dictGet k facts with
   | none => .ok none
   | some v =>
-    match parseFtpTime fx v with
+    match parseFtpTime v with
     | .ok t => .ok (some t)
     | .err e => .err e
 
 /-- one line of `_parse_mlsx`: `.ok none` = skipped -/
-def parseMlsxLine (fx : Bool) (line : Str) : Res (Option MlsdInfo) :=
+def parseMlsxLine (line : Str) : Res (Option MlsdInfo) :=
   let nf := parseFacts (strip line)
   match nf.1 with
   | none => .ok none
@@ -668,24 +669,24 @@ def parseMlsxLine (fx : Bool) (line : Str) : Res (Option MlsdInfo) :=
     let ty := (dictGet kType facts).getD kFile
     if ty ≠ kDir ∧ ty ≠ kFile then .ok none
     else
-      match mlsdSize fx facts with
+      match mlsdSize facts with
       | .err e => .err e
       | .ok sz =>
-        match mlsdTime fx facts kModify with
+        match mlsdTime facts kModify with
         | .err e => .err e
         | .ok mo =>
-          match mlsdTime fx facts kCreate with
+          match mlsdTime facts kCreate with
           | .err e => .err e
           | .ok cr => .ok (some ⟨name, ty = kDir, facts, sz, mo, cr⟩)
 
 /-- `list(FTPFS._parse_mlsx(lines))` -/
-def parseMlsx (fx : Bool) : List Str → Res (List MlsdInfo)
+def parseMlsx : List Str → Res (List MlsdInfo)
   | [] => .ok []
   | line :: rest =>
-    match parseMlsxLine fx line with
+    match parseMlsxLine line with
     | .err e => .err e
     | .ok r =>
-      match parseMlsx fx rest with
+      match parseMlsx rest with
       | .err e => .err e
       | .ok infos => .ok (match r with | some i => i :: infos | none => infos)
 
@@ -867,8 +868,8 @@ structure WFId (u : Str) : Prop where
     (d = [] ∨ d = ['$'])
 
 /-- the date of a unix LIST line is meaningful: a real calendar date; for the `HH:MM` form the
-    day must exist in the current year (the pinned code raises otherwise, see
-    `parseLine_feb29_counterexample`), for the year form the year is not 1900 (which the code
+    day must exist in the current year (otherwise the entry has no time, see
+    `C20.parse_line_feb29_repaired`), for the year form the year is not 1900 (which the code
     replaces by the current year) -/
 def wfLTime (cy month day : Nat) : LTime → Prop
   | .year y => validDate y month day = true ∧ y ≠ 1900
